@@ -34,6 +34,10 @@ def run(tier, seed, t0):
                     ["--mode", "allM", "--seed", seed + 5, "--maxM", 4096], timeout=1800))
     jobs.append(Job("debug-conv", "drv_c13", "debug", "nayuki-portable",
                     ["--mode", "conv", "--seed", seed + 5, "--log2count", 20], timeout=1800))
+    # several threads at once, each with its own message space; natively and under ThreadSanitizer
+    jobs.append(Job("threads-optim", "drv_c13", "optim", "spqlios-fma", ["--mode", "threads", "--threads", 6, "--iters", 2e7 if thorough else 3e6, "--seed", seed + 11], timeout=3600))
+    jobs.append(Job("threads-debug", "drv_c13", "debug", "nayuki-portable", ["--mode", "threads", "--threads", 12, "--iters", 2e6 if thorough else 4e5, "--seed", seed + 12], timeout=3600))
+    jobs.append(Job("threads-tsan", "drv_c13", "tsan", "nayuki-portable", ["--mode", "threads", "--threads", 4, "--iters", 2e5, "--seed", seed + 13], tool="tsan", timeout=3600, meta={"leaks": False}))
     # environment: the application has set another floating-point rounding direction (the unchanged functions are insensitive)
     for k, mode in enumerate(("upward", "downward", "towardzero")):
         fl, be = (("optim", "spqlios-fma"), ("debug", "nayuki-portable"), ("optim", "fftw"))[k]
